@@ -35,7 +35,7 @@ use crate::verif::vx::report::{Report, Violation};
 use std::collections::{BTreeMap, BTreeSet};
 use std::net::{IpAddr, Ipv4Addr, Ipv6Addr};
 
-mod wire {
+pub(super) mod wire {
     include!(concat!(env!("OSRG_RUSTYBGP_VERIF_DIR"), "/hx/src/wire.rs"));
 }
 mod mkmsg {
@@ -63,19 +63,19 @@ fn viol2(domain: &str, clause: &str, shape: &str, what: String, case: &str) -> V
 // loopback BMP station
 // ---------------------------------------------------------------------------
 
-struct Station {
+pub(super) struct Station {
     listener: tokio::net::TcpListener,
     stream: Option<TcpStream>,
     buf: Vec<u8>,
 }
 
 impl Station {
-    async fn new() -> Result<(Station, SocketAddr), String> {
+    pub(super) async fn new() -> Result<(Station, SocketAddr), String> {
         let listener = tokio::net::TcpListener::bind("127.0.0.1:0").await.map_err(|e| format!("station bind: {e}"))?;
         let addr = listener.local_addr().map_err(|e| e.to_string())?;
         Ok((Station { listener, stream: None, buf: Vec::new() }, addr))
     }
-    async fn accept(&mut self) -> Result<(), String> {
+    pub(super) async fn accept(&mut self) -> Result<(), String> {
         match tokio::time::timeout(WAIT, self.listener.accept()).await {
             Err(_) => Err("station: the BMP client did not connect within the time limit".into()),
             Ok(Err(e)) => Err(format!("station accept: {e}")),
@@ -87,7 +87,7 @@ impl Station {
     }
     /// Next message, framed by the common header's length field.
     /// Ok(None) = the client closed the connection.  Err = machinery (timeout).
-    async fn next(&mut self) -> Result<Option<Vec<u8>>, String> {
+    pub(super) async fn next(&mut self) -> Result<Option<Vec<u8>>, String> {
         use tokio::io::AsyncReadExt;
         loop {
             if self.buf.len() >= 6 {
@@ -121,7 +121,7 @@ impl Station {
     }
 }
 
-fn attach_bmp(d_global: &GlobalHandle, d_tables: &TableHandle, addr: SocketAddr, policy: crate::bmp::BmpPolicy) -> CancellationToken {
+pub(super) fn attach_bmp(d_global: &GlobalHandle, d_tables: &TableHandle, addr: SocketAddr, policy: crate::bmp::BmpPolicy) -> CancellationToken {
     // what Global::add_bmp_client + the config / gRPC handlers do
     let client = BmpClient::new();
     let cancel = client.cancel.clone();
@@ -131,7 +131,7 @@ fn attach_bmp(d_global: &GlobalHandle, d_tables: &TableHandle, addr: SocketAddr,
 
 /// Wait until the table manager has `n` subscribers (explicit acknowledgement that
 /// the BMP client / MRT dumper has subscribed and will see every later event).
-async fn wait_subscribers(tables: &TableHandle, n: usize, what: &str) -> bool {
+pub(super) async fn wait_subscribers(tables: &TableHandle, n: usize, what: &str) -> bool {
     let t0 = std::time::Instant::now();
     loop {
         if tables.bmp_senders().len() >= n {
